@@ -1211,3 +1211,6 @@ V('c13-null-reference-compared', 'C13', 'C13.R15',
   ('pywbem_mock/_mainprovider.py', "                if prop.type == 'reference' and prop.value is not None:\n                    # Does this prop instance name match target inst name\n",
    "                if prop.type == 'reference':\n                    # Does this prop instance name match target inst name\n"),
   'null-reference-used')
+V('c11-response-delay-unvalidated', 'C11', 'C11.R7',
+  ('pywbem_mock/_wbemconnection_mock.py', "        self.response_delay = response_delay\n", "        self._response_delay = response_delay\n"),
+  'setter-bypassed')
